@@ -338,8 +338,9 @@ func (ps *PathSum) load(s *psState, addr string, f *psFrame, t types.Type) strin
 				return "@" + loc
 			}
 		}
-		// zero-initialised locals
-		if strings.Contains(loc, "#") && !strings.Contains(loc, ".") && !strings.Contains(loc, "[") {
+		// zero-initialised locals, and never-written fields of an object allocated on this path (composite literal)
+		freshField := strings.HasPrefix(loc, "complit") && strings.Count(loc, ".") == 1 && !strings.Contains(loc, "[")
+		if strings.Contains(loc, "#") && (!strings.Contains(loc, ".") || freshField) && !strings.Contains(loc, "[") {
 			switch u := t.Underlying().(type) {
 			case *types.Basic:
 				if u.Kind() == types.Bool {
